@@ -374,6 +374,7 @@ pub fn write_spec(mix: WriteMix, nkeys: usize, nblobs: usize) -> impl Strategy<V
                 cancel_chunk,
                 aged_hours,
                 decoy_opts,
+                chdir_mid: None,
             };
             normalise_write(&mut s);
             s
